@@ -245,6 +245,9 @@ def run(eng, rep) -> None:
     rep.rule("R12.5", "CLI encode names the struct describing FcpV2.reflection()")
     rep.rule("R12.6", "reflection() returns fresh records: no module-level object returned, no in-place change of another record")
     rep.rule("R12.8", "no fixed-precision number formatting (:f/:e/:g/.N, %f, round, format) on the code that builds reflection records")
+    rep.rule("R12.9", "every step of a table of field-annotation handlers builds on the annotations accumulated so far")
+    from .lints import fold_step_drops_accumulator
+    fold_step_drops_accumulator(eng, rep, "R12.9", ("fcp.parser", "fcp.specs"), "a unit written before a range (or the other way round) is lost from the schema")
     rep.rule("R12.7", "a Type entry built inside a loop that walks a chain of types reads every value from the node the walk is at")
     rep.assume("byte-level losslessness of the codec itself is C01/C02 applied to reflection.fcp; float range metadata is stored as f64 exactly")
     g = Grammar(prog)
